@@ -150,6 +150,8 @@ def step (j : Json) : Json :=
       Json.mkObj [("exc", .str (match r with | .ok _ => "ok" | .error e => errName e)),
         ("knobs", vecJson p.n s1.knobs), ("vact", .str (flagsStr p.n s1.vAct)), ("tact", .str (flagsStr p.nt s1.tAct)),
         ("last_within", .bool s1.lastWithin), ("take_best", match tb with | some i => .num (JsonNumber.fromNat i) | none => .null),
+        -- hypothesis of `C10_disabled_knob_never_changed`: the reloaded row was logged during this call
+        ("tb_in_call", .bool (match tb with | some i => decide (log.length ≤ i) | none => true)),
         ("rows", .arr (newRows.map (fun rw => Json.mkObj [("knobs", vecJson p.n rw.knobs),
             ("vary_active", .str (flagsStr p.n rw.vAct)), ("target_active", .str (flagsStr p.nt rw.tAct))])).toArray)]
     | _, _, _, _ => Json.mkObj [("bad-op", .str "pre")]
